@@ -212,6 +212,81 @@ static void usable(const std::string& id, const char* what, const Manifold& m) {
   printf("O %s %d %zu | %s:%s\n", id.c_str(), st, nt, what, (st != 0 && nt != 0) ? "ERROR-NOT-EMPTY" : "ok");
 }
 
+// ---- error-position sweep -------------------------------------------------
+// An errored object is placed in EVERY operand position of every operation that
+// takes more than one object, against partners of every emptiness class, with
+// operands either already evaluated (eager) or still deferred CSG trees (lazy).
+// Every result must keep a non-NoError status and be empty.
+static Manifold makeBad(int which) {
+  MeshGL64 g = Manifold::Tetrahedron().GetMeshGL64();
+  if (which == 0) g.vertProperties[4] = NAN;   // NonFiniteVertex
+  else g.triVerts[2] = 1000;                   // VertexOutOfBounds
+  return Manifold(g);
+}
+
+static void sweepOut(std::ostringstream& os, const std::string& name, const Manifold& r) {
+  // evaluated twice: which error wins must not depend on the evaluation
+  const int st = (int)r.Status();
+  const size_t nt = r.NumTri();
+  Manifold again = r;
+  const int st2 = (int)again.Status();
+  os << " " << name << ":" << st << ":" << nt << ":" << (st == st2 ? 1 : 0);
+}
+
+static void errorSweep(const std::string& id, bool lazy) {
+  const Manifold solid = Manifold::Cube(vec3(1.0));
+  const Manifold farCube = solid.Translate({5, 0, 0});
+  auto defer = [lazy](const Manifold& m) {
+    if (lazy) return m.Translate({0.25, 0, 0}).Rotate(0, 0, 90);  // unevaluated transform node
+    Manifold c = m;
+    (void)c.Status();                                               // force evaluation: a leaf
+    return c;
+  };
+  const Manifold bad = defer(makeBad(0));
+  struct Named { const char* name; Manifold m; };
+  std::vector<Named> partners = {{"solid", defer(solid)},
+                                 {"validEmpty", defer(solid ^ farCube)},
+                                 {"default", defer(Manifold())},
+                                 {"otherError", defer(makeBad(1))}};
+  const std::pair<const char*, OpType> ops[] = {{"Add", OpType::Add}, {"Subtract", OpType::Subtract}, {"Intersect", OpType::Intersect}};
+  std::ostringstream os;
+  os << "E " << id << " " << (lazy ? "lazy" : "eager") << " |";
+  for (const auto& p : partners) {
+    const std::string pn = p.name;
+    for (const auto& op : ops) {
+      const std::string on = op.first;
+      sweepOut(os, "Boolean" + on + "(bad," + pn + ")", bad.Boolean(p.m, op.second));
+      sweepOut(os, "Boolean" + on + "(" + pn + ",bad)", p.m.Boolean(bad, op.second));
+      sweepOut(os, "BatchBoolean" + on + "(bad," + pn + ",solid)", Manifold::BatchBoolean({bad, p.m, solid}, op.second));
+      sweepOut(os, "BatchBoolean" + on + "(" + pn + ",bad,solid)", Manifold::BatchBoolean({p.m, bad, solid}, op.second));
+      sweepOut(os, "BatchBoolean" + on + "(solid," + pn + ",bad)", Manifold::BatchBoolean({solid, p.m, bad}, op.second));
+      sweepOut(os, "Nested" + on + "((" + pn + on + "bad)+solid)", p.m.Boolean(bad, op.second) + solid);
+      sweepOut(os, "Nested" + on + "(solid+(bad" + on + pn + "))", solid + bad.Boolean(p.m, op.second));
+      sweepOut(os, "Nested" + on + "((" + pn + on + "bad)^solid)", p.m.Boolean(bad, op.second) ^ solid);
+    }
+    { Manifold c = p.m; c += bad; sweepOut(os, "AddAssign(" + pn + ",bad)", c); }
+    { Manifold c = p.m; c -= bad; sweepOut(os, "SubAssign(" + pn + ",bad)", c); }
+    { Manifold c = p.m; c ^= bad; sweepOut(os, "IntAssign(" + pn + ",bad)", c); }
+    { auto pr = bad.Split(p.m); sweepOut(os, "Split.first(bad," + pn + ")", pr.first); sweepOut(os, "Split.second(bad," + pn + ")", pr.second); }
+    { auto pr = p.m.Split(bad); sweepOut(os, "Split.first(" + pn + ",bad)", pr.first); sweepOut(os, "Split.second(" + pn + ",bad)", pr.second); }
+    sweepOut(os, "MinkowskiSum(bad," + pn + ")", bad.MinkowskiSum(p.m));
+    sweepOut(os, "MinkowskiSum(" + pn + ",bad)", p.m.MinkowskiSum(bad));
+    sweepOut(os, "MinkowskiDifference(bad," + pn + ")", bad.MinkowskiDifference(p.m));
+    sweepOut(os, "MinkowskiDifference(" + pn + ",bad)", p.m.MinkowskiDifference(bad));
+    sweepOut(os, "Hull(bad," + pn + ")", Manifold::Hull({bad, p.m}));
+    sweepOut(os, "Hull(" + pn + ",bad)", Manifold::Hull({p.m, bad}));
+    sweepOut(os, "Compose(bad," + pn + ")", Manifold::Compose({bad, p.m}));
+    sweepOut(os, "Compose(" + pn + ",bad)", Manifold::Compose({p.m, bad}));
+    // the error arrives through the cutter / the object being cut
+    { auto pr = p.m.Boolean(bad, OpType::Subtract).SplitByPlane({0, 0, 1}, 0.5); sweepOut(os, "SplitByPlane.first(" + pn + "-bad)", pr.first); sweepOut(os, "SplitByPlane.second(" + pn + "-bad)", pr.second); }
+    sweepOut(os, "TrimByPlane(" + pn + "^bad)", p.m.Boolean(bad, OpType::Intersect).TrimByPlane({0, 0, 1}, 0.5));
+    sweepOut(os, "TrimByPlane(" + pn + "-bad)", p.m.Boolean(bad, OpType::Subtract).TrimByPlane({0, 0, 1}, 0.5));
+  }
+  { auto pr = bad.SplitByPlane({0, 0, 1}, 0.5); sweepOut(os, "SplitByPlane.first(bad)", pr.first); sweepOut(os, "SplitByPlane.second(bad)", pr.second); }
+  sweepOut(os, "TrimByPlane(bad)", bad.TrimByPlane({0, 0, 1}, 0.5));
+  puts(os.str().c_str());
+}
+
 int main() {
   std::string line;
   while (std::getline(std::cin, line)) {
@@ -221,7 +296,10 @@ int main() {
     std::string kind = c.next();
     std::string id = c.next();
     watchdog(10);
-    if (kind == "R") {
+    if (kind == "E") {
+      watchdog(60);
+      errorSweep(id, c.next() == "lazy");
+    } else if (kind == "R") {
       int prec = (int)c.u();
       if (prec == 32) meshCase<float, uint32_t>(id, c); else meshCase<double, uint64_t>(id, c);
     } else if (kind == "G") {
